@@ -3,6 +3,7 @@ package sym
 import (
 	"fmt"
 	"go/token"
+	"math/rand"
 	"os"
 	"runtime/debug"
 	"sort"
@@ -29,6 +30,15 @@ type Violation struct {
 	Fired     []int             `json:"timers_fired,omitempty"`
 	Trace     []int32           `json:"decisions"`
 	PC        string            `json:"path_condition,omitempty"`
+	Expect    *WitnessExpect    `json:"expect,omitempty"`
+}
+
+// WitnessExpect: what the engine saw on a completed path, to be matched by the native run of the
+// same harness on the same inputs (translator validation).
+type WitnessExpect struct {
+	Asserts int `json:"asserts"`
+	Nondet  int `json:"nondet"`
+	Choices int `json:"choices"`
 }
 
 // HarnessRun aggregates the exploration of one harness entry.
@@ -55,6 +65,11 @@ type HarnessRun struct {
 	Samples    []string
 	Access     map[string]*AccessClass
 	stop       int32
+
+	WitnessMax int
+	Witnesses  []*Violation
+	doneSeen   int64
+	rng        *rand.Rand
 }
 
 type ObligStat struct {
@@ -95,6 +110,7 @@ func (r *Run) violation(id, msg string, pos token.Pos) {
 }
 
 func (r *Run) recordViolation(id, msg string, pos token.Pos, known bool, m *Model) {
+	r.hadViolation = true
 	h := r.H
 	h.mu.Lock()
 	defer h.mu.Unlock()
@@ -149,6 +165,7 @@ func (r *Run) recordViolation(id, msg string, pos token.Pos, known bool, m *Mode
 func (r *Run) assert(kf, cond *Term, id string, pos token.Pos) {
 	h := r.H
 	tb := r.TB
+	r.nAsserts++
 	h.mu.Lock()
 	st := h.oblig(id)
 	st.Checked++
@@ -253,6 +270,9 @@ func (h *HarnessRun) runPath(s *Solver, w work) {
 	if endKind == "goroutine-panic" && r.uncaught != nil {
 		r.violation(h.Name+"/goroutine-panic", "uncaught panic in goroutine: "+endMsg, r.uncaught.Pos)
 	}
+	if endKind == "done" && h.WitnessMax > 0 && !r.hadViolation {
+		r.maybeWitness()
+	}
 	// terminate remaining host goroutines of this path
 	r.dead = true
 	for _, t := range r.threads[1:] {
@@ -281,6 +301,55 @@ func (h *HarnessRun) runPath(s *Solver, w work) {
 		h.Samples = append(h.Samples, fmt.Sprintf("choices=%v pc=%s", r.choices, pc))
 	}
 	r.mergeAccess()
+	h.mu.Unlock()
+}
+
+// maybeWitness keeps a uniform sample (reservoir) of completed paths together with a model of their
+// path condition: concrete inputs on which the native build must behave as the engine did.
+func (r *Run) maybeWitness() {
+	h := r.H
+	h.mu.Lock()
+	h.doneSeen++
+	slot := -1
+	if len(h.Witnesses) < h.WitnessMax {
+		slot = len(h.Witnesses)
+		h.Witnesses = append(h.Witnesses, nil)
+	} else if j := h.rng.Int63n(h.doneSeen); j < int64(h.WitnessMax) {
+		slot = int(j)
+	}
+	h.mu.Unlock()
+	if slot < 0 {
+		return
+	}
+	res, m := r.check()
+	if res != Sat || m == nil {
+		return
+	}
+	w := &Violation{Harness: h.Name, ID: "witness", Choices: append([]int(nil), r.choices...),
+		MapOrders: append([]int(nil), r.mapOrders...), Sched: append([]int(nil), r.sched...),
+		Fired: append([]int(nil), r.firedLog...),
+		Expect: &WitnessExpect{Asserts: r.nAsserts, Nondet: len(r.nondet), Choices: len(r.choices)}}
+	cache := map[int]uint64{}
+	for i, t := range r.nondet {
+		val, _ := m.Eval(t, cache)
+		w.Nondet = append(w.Nondet, NondetRec{Kind: r.nondetK[i], Name: t.Name, Val: fmt.Sprintf("%d", val)})
+	}
+	if len(m.Apps) > 0 {
+		w.UF = map[string][][]string{}
+		keys := make([]string, 0, len(m.Apps))
+		for k := range m.Apps {
+			keys = append(keys, k)
+		}
+		sort.Strings(keys)
+		for _, k := range keys {
+			parts := strings.Split(k, ",")
+			row := append([]string{}, parts[1:]...)
+			row = append(row, fmt.Sprintf("%x", m.Apps[k]))
+			w.UF[parts[0]] = append(w.UF[parts[0]], row)
+		}
+	}
+	h.mu.Lock()
+	h.Witnesses[slot] = w
 	h.mu.Unlock()
 }
 
